@@ -3,6 +3,7 @@
    C16 invariant holds in every reachable state of the reader model, for every history *)
 From Coq Require Import List String NArith ZArith Bool Arith Lia.
 From Verif Require Import Base.Util Reader.Model Reader.Proofs C16.ManagerProofs.
+From Verif Require Import Reader.Forget.
 From Verif Require C16.Model C16.Manager C16.Proofs.
 Import ListNotations.
 
@@ -44,11 +45,17 @@ Qed.
 Lemma fold_mg {A} (f : st -> A -> st) : (forall s x, mg (f s x) = mg s) -> forall l s, mg (fold_left f l s) = mg s.
 Proof. intros H l. induction l as [|x l IH]; intros s; cbn [fold_left]; [reflexivity|]. rewrite IH. apply H. Qed.
 
-Lemma fire_mg s : mg (fire_pbars (fire_cbars s)) = mg s.
+Lemma fire_mg0 s : mg (fire_pbars (fire_cbars s)) = mg s.
 Proof.
   unfold fire_pbars, fire_cbars.
   rewrite (fold_mg (fun s pb => let '((c, p), b) := pb in if negb (b_done b) && Nat.leb (b_dest b) (b_got b) then _ else s)); [|intros s0 [[c p] b]; destruct (_ && _); reflexivity].
   apply fold_mg. intros s0 [c b]. destruct (_ && _); reflexivity.
+Qed.
+
+Lemma fire_mg l b s : mg (forget_fired l b (fire_pbars (fire_cbars s))) = mg s.
+Proof.
+  pose proof (forget_fired_frame l b (fire_pbars (fire_cbars s))) as F. unfold same_but_heap in F.
+  rewrite <- (fire_mg0 s). apply F.
 Qed.
 
 Lemma start_handler_mg s a b c z : mg (start_handler s a b c z) = mg s. Proof. reflexivity. Qed.
